@@ -83,9 +83,23 @@ func VerifC01Wire() {
 	for _, l := range oc.lines {
 		mirror.applyDecoded(c1DecodeLine(l)) // the EXISTS of SELECT
 	}
+	// C05 on the wire: removals the other client committed that the observer has not been told yet
+	pendingRemovals := 0
+	noExpunge := func(ans []string, tag string) {
+		for _, l := range ans {
+			vsymAssert(c1DecodeLine(l).Kind != 2, "no EXPUNGE line while a FETCH or STORE is answered")
+		}
+		if pendingRemovals > 0 {
+			vsymCover("wire-held-back")
+			vsymAssert(c1Tagged(ans, tag, "OK [EXPUNGEISSUED]"), "a FETCH or STORE that holds a removal back says [EXPUNGEISSUED] in its tagged OK")
+		}
+	}
 	// probe on the wire
 	probe := func() {
 		ans := oc.send("p FETCH 1:* (UID FLAGS)")
+		if len(mirror.ents) > 0 {
+			noExpunge(ans, "p")
+		}
 		vsymAssert(c1Tagged(ans, "p", "OK") || len(mirror.ents) == 0, "FETCH 1:* is answered")
 		n := 0
 		for _, l := range ans {
@@ -122,27 +136,36 @@ func VerifC01Wire() {
 		switch vsymChoice("event", 6) {
 		case 0: // observer: NOOP
 			feed(oc.send("n NOOP"))
+			pendingRemovals = 0
 			probe()
 		case 1: // observer: STORE seq +/-FLAGS (flag)
 			if len(mirror.ents) == 0 {
 				vsymAssume(false)
 			}
 			seq := 1 + vsymChoice("storeSeq", len(mirror.ents))
-			feed(oc.send("t STORE " + string(rune('0'+seq)) + " " + []string{"+", "-"}[vsymChoice("storeSign", 2)] + "FLAGS (" + flagNames[vsymChoice("storeFlag", 3)] + ")"))
+			ans := oc.send("t STORE " + string(rune('0'+seq)) + " " + []string{"+", "-"}[vsymChoice("storeSign", 2)] + "FLAGS (" + flagNames[vsymChoice("storeFlag", 3)] + ")")
+			noExpunge(ans, "t")
+			feed(ans)
 			probe()
 		case 2: // observer: EXPUNGE
 			feed(oc.send("e EXPUNGE"))
+			pendingRemovals = 0
 			probe()
 		case 3: // the other client: STORE 1 +/-FLAGS (flag)
 			ac.send("b STORE 1 " + []string{"+", "-"}[vsymChoice("actSign", 2)] + "FLAGS (" + flagNames[vsymChoice("actFlag", 3)] + ")")
 		case 4: // the other client: delete and expunge its first message
 			ac.send("b STORE 1 +FLAGS.SILENT (\\Deleted)")
-			ac.send("b EXPUNGE")
+			for _, l := range ac.send("b EXPUNGE") {
+				if c1DecodeLine(l).Kind == 2 {
+					pendingRemovals++
+				}
+			}
 		case 5: // the other client: COPY 1 INBOX
 			ac.send("b COPY 1 INBOX")
 		}
 	}
 	feed(oc.send("n NOOP"))
+	pendingRemovals = 0
 	probe()
 	// C02 on the wire: what the long-lived session answers after NOOP is what a fresh EXAMINE session answers
 	fc := mk(3)
